@@ -89,11 +89,31 @@ def total_cases(maxlen, rng=None, extra_len=None, extra_n=0):
     return [{"strings": strs[k:k + 1000]} for k in range(0, len(strs), 1000)]
 
 
+def neighbour_cases(rng, count):
+    """every single-character edit (deletion, replacement, insertion over the alphabet) of texts rendered by the
+    specification: the strings closest to valid ones, far longer than the exhaustive length bound"""
+    alpha = "[]{},: a1\t\n"
+    texts = sorted({"".join(r["text"]) for r in _export("rendered", 3, 0)})
+    rng.shuffle(texts)
+    out = set()
+    for t in texts[:count]:
+        for i in range(len(t) + 1):
+            for ch in alpha:
+                out.add(t[:i] + ch + t[i:])
+                if i < len(t):
+                    out.add(t[:i] + ch + t[i + 1:])
+            if i < len(t):
+                out.add(t[:i] + t[i + 1:])
+    strs = sorted(out)
+    return [{"strings": strs[k:k + 1000]} for k in range(0, len(strs), 1000)]
+
+
 def file_cases(dss):
     out = []
     for k, D in enumerate(dss):
         n = max(grids.universe(D))
-        out.append({"D": D, "naming": ["ints", "letters", "big", "zero"][k % 4], "ne": n, "reader": k % 2})
+        out.append({"D": D, "naming": ["ints", "letters", "big", "zero", "mixed1", "mixed3"][k % 6], "ne": n,
+                    "reader": k % 2})
     return out
 
 
@@ -108,6 +128,8 @@ def stages(tier, rng, only=None):
                  chunk=30000),
            Stage("total", "Trace_Text", run_total,
                  lambda: total_cases(5, rng, 7, 20000) if tier == "quick" else total_cases(6, rng, 8, 200000),
+                 None, _init, chunk=2000),
+           Stage("neighbours", "Trace_Text", run_total, lambda: neighbour_cases(rng, 150 if tier == "quick" else 1500),
                  None, _init, chunk=2000),
            Stage("files", "Trace_Dataset", datarun.run_file,
                  lambda: file_cases(grids.datasets(3, 2) if tier == "quick" else grids.datasets(3, 3)),
